@@ -124,8 +124,8 @@ Definition check_case (c : case) : N :=
       if (sigcls =? 2)%nat then 12 else
       match SignatureCtx e, sigcls with
       | Ok s, 0%nat =>
-          (* property oracle: on explicit-width types the helper equals the entry's signature *)
-          if forallb explicit_widths (e_inputs e) && negb (bytes_eqb helper sig) then 11
+          (* property oracle: the helper equals the entry's signature (aliases included) *)
+          if negb (bytes_eqb helper sig) then 11
           else if negb (bytes_eqb s sig) then 7
           else if negb (bytes_eqb (ABIMethodToSignature e) helper) then 8 else 0
       | Err _, 1%nat => if bytes_eqb (ABIMethodToSignature e) helper then 0 else 8
